@@ -374,8 +374,10 @@ def main():
         'wall_s': round(time.time() - t0, 2),
         'violations': len(violations),
     }
-    os.makedirs(os.path.join(HERE, 'evidence'), exist_ok=True)
-    with open(os.path.join(HERE, 'evidence', prop + '.json'), 'w') as f:
+    # evidence/ describes /repo itself; a run pointed at another tree (VERIF_REPO: seeded changes) writes next to that tree
+    evdir = os.path.join(HERE, 'evidence') if os.path.realpath(hlib.REPO) == '/repo' else os.path.join(os.path.realpath(hlib.REPO) + '.evidence')
+    os.makedirs(evdir, exist_ok=True)
+    with open(os.path.join(evdir, prop + '.json'), 'w') as f:
         json.dump(ev, f, indent=1, ensure_ascii=True)
     log('== %s: cells=%d confirmed=%d inconclusive=%d smt=%d paths=%d z3_checks=%d solver=%.1fs wall=%.1fs' % (
         prop, len(results), sum(1 for r in results.values() if r.get('status') == 'CONFIRMED'),
